@@ -25,47 +25,7 @@
 (* string ...).  TLC never looks inside them; the harness maps names to    *)
 (* text when rendering and text back to names when logging.                *)
 (***************************************************************************)
-EXTENDS Naturals, Sequences, FiniteSets, TLC
-
---------------------------------------------------------------------------------
-(* JSON trees.  One record shape for every node so that sequences are uniform. *)
-(* k: "str" "int" "bool" "null" "list" "obj" "broken"                           *)
-(* "broken" stands for text that is not JSON (a = which kind; harness renders). *)
-J(k, a, n, c) == [k |-> k, a |-> a, n |-> n, c |-> c]
-JStr(a)    == J("str", a, 0, <<>>)
-JInt(n)    == J("int", "", n, <<>>)
-JTrue      == J("bool", "true", 0, <<>>)
-JFalse     == J("bool", "false", 0, <<>>)
-JNull      == J("null", "", 0, <<>>)
-JList(c)   == J("list", "", 0, c)
-JObj(ms)   == J("obj", "", 0, ms)          \* ms: sequence of members, keys unique
-JBroken(a) == J("broken", a, 0, <<>>)
-Mem(key, val) == [key |-> key, val |-> val]
-EmptyObj == JObj(<<>>)
-
-HasKey(o, key) == \E i \in 1..Len(o.c) : o.c[i].key = key
-Get(o, key)    == o.c[CHOOSE i \in 1..Len(o.c) : o.c[i].key = key].val
-
-RECURSIVE HasBroken(_)
-HasBroken(x) ==
-  IF x.k = "broken" THEN TRUE
-  ELSE IF x.k = "list" THEN \E i \in 1..Len(x.c) : HasBroken(x.c[i])
-  ELSE IF x.k = "obj"  THEN \E i \in 1..Len(x.c) : HasBroken(x.c[i].val)
-  ELSE FALSE
-
-\* JSON value equality: objects are unordered (RFC 8259 section 4), lists ordered.
-RECURSIVE JEq(_, _)
-JEq(x, y) ==
-  IF x.k # y.k THEN FALSE
-  ELSE IF x.k = "obj" THEN
-         /\ Len(x.c) = Len(y.c)
-         /\ \A i \in 1..Len(x.c) : \E j \in 1..Len(y.c) :
-               IF x.c[i].key = y.c[j].key THEN JEq(x.c[i].val, y.c[j].val) ELSE FALSE
-         /\ \A i, j \in 1..Len(y.c) : (y.c[i].key = y.c[j].key) => (i = j)
-  ELSE IF x.k = "list" THEN
-         /\ Len(x.c) = Len(y.c)
-         /\ \A i \in 1..Len(x.c) : JEq(x.c[i], y.c[i])
-  ELSE x.a = y.a /\ x.n = y.n
+EXTENDS JsonTree, FiniteSets, TLC      \* JsonTree: JSON value trees (J, JStr, JObj, Mem, HasKey, Get, HasBroken, JEq)
 
 --------------------------------------------------------------------------------
 (* Decoded requests and outcomes.                                              *)
